@@ -404,20 +404,22 @@ class Recorder(object):
                 endc = env.manager.option(cls, 'end_transaction_column_name')
                 cols = sa.inspect(cls).columns
                 m = sa.inspect(cls)
+                byname = {c.name: c for c in vtb.c}
                 for row in conn.execute(sa.select(vtb)).mappings():
                     key, dat, mod = [], [], []
                     for k in self.colkeys[ci]:
                         col = m.columns[k]
-                        if col.name not in vtb.c:
+                        if col.name not in byname:
                             continue
                         if col.primary_key:
-                            key.append(row[col.name])
+                            key.append(row[byname[col.name]])
                         else:
-                            dat.append(row[col.name])
-                            if (col.name + '_mod') in vtb.c:
-                                mod.append(bool(row[col.name + '_mod']))
-                    vt.append(dict(tab=ci, key=key, tx=row[txc], end=row[endc] if endc in vtb.c else None,
-                                   op=row['operation_type'], dat=dat, mod=mod))
+                            dat.append(row[byname[col.name]])
+                            if (col.name + '_mod') in byname:
+                                mod.append(bool(row[byname[col.name + '_mod']]))
+                    vt.append(dict(tab=ci, key=key, tx=row[byname[txc]],
+                                   end=row[byname[endc]] if endc in byname else None,
+                                   op=row[byname['operation_type']], dat=dat, mod=mod))
         av = []
         for ai, tbl in enumerate(env.assoc):
             vname = env.manager.options['table_name'] % tbl.name
